@@ -10,6 +10,7 @@ import (
 	"fmt"
 	"sort"
 	"strings"
+	"time"
 
 	"github.com/relab/hotstuff"
 	"github.com/relab/hotstuff/core"
@@ -78,6 +79,8 @@ type World struct {
 	crafter *crafter
 	seq     int
 	fired   map[int]int // local timer expiries per slot
+	// Starved is set when a handler had to be released by the watchdog (command stock exhausted)
+	Starved bool
 	// Drops enables the loss deviation (an in-flight message is discarded)
 }
 
@@ -218,7 +221,7 @@ func (w *World) Default() string {
 // Synchronizer.Start / twins.Network.run do).
 func New(cfg Config) *World {
 	if cfg.Commands == 0 {
-		cfg.Commands = int(cfg.Horizon) + 3
+		cfg.Commands = 16 // a leader that finds its command cache empty blocks inside the handler
 	}
 	w := &World{Cfg: cfg, ByID: map[hotstuff.ID][]int{}, Truth: fix.NewTruth(), Blocks: map[hotstuff.Hash]*hotstuff.Block{}}
 	w.Blocks[hotstuff.GetGenesis().Hash()] = hotstuff.GetGenesis()
@@ -278,6 +281,20 @@ func New(cfg Config) *World {
 		}
 	}
 	return w
+}
+
+// guard runs one handler invocation. A handler that blocks (a leader waiting for client commands
+// after the stock ran out) is released by a watchdog through the loop's timeout context; the
+// world is then marked Starved and not explored further (a cap, never a verdict).
+func (w *World) guard(n *SimNode, f func()) {
+	var t *time.Timer
+	t = time.AfterFunc(3*time.Second, func() {
+		w.Starved = true
+		n.Loop.AddEvent(hotstuff.TimeoutEvent{View: 0}) // cancels the handler's timeout context
+		t.Reset(time.Second)
+	})
+	f()
+	t.Stop()
 }
 
 func (w *World) begin(label string, slot int, m *Msg) {
@@ -340,8 +357,10 @@ func (w *World) Apply(label string) bool {
 				}
 				n := w.Nodes[m.To]
 				w.begin(label, m.To, &m)
-				n.Loop.AddEvent(m.Payload)
-				n.Drain()
+				w.guard(n, func() {
+					n.Loop.AddEvent(m.Payload)
+					n.Drain()
+				})
 				w.end()
 				return true
 			}
@@ -369,8 +388,10 @@ func (w *World) Apply(label string) bool {
 		}
 		w.fired[slot]++
 		w.begin(label, slot, nil)
-		n.Loop.AddEvent(hotstuff.TimeoutEvent{View: n.VS.View()})
-		n.Drain()
+		w.guard(n, func() {
+			n.Loop.AddEvent(hotstuff.TimeoutEvent{View: n.VS.View()})
+			n.Drain()
+		})
 		w.end()
 		return true
 	case 'B':
